@@ -95,7 +95,8 @@ LEVEL_TEXT = ("partial: proved for the rational model for all trees, all paramet
 LEVEL_NOTE = ("the tie (real floats vs. rational model within 1e-9, after every layout of a history) carries the "
               "step from the model to the code; binary64 rounding is not verified. The oracle re-implements the "
               "class predicate from first principles and reports a cousin failure on a tree inside the class under "
-              "its own clause name (cousin_in_class), which is never attributed to K1")
+              "its own clause name (cousin_in_class), which is never attributed to K1"
+    ' Known finding K6: BinaryNode trees raise AttributeError (outside the generated domain, replayed separately on every run).')
 TECHNIQUE = ("Lean 4 proof over an executable rational model of the three passes (structural/fuel recursion "
              "mirroring plot.py, entry shifts as input, stored shifts as output) + differential correspondence "
              "check of all coordinates over layout/edit histories + model-free oracle of the five clauses on the "
